@@ -24,6 +24,8 @@ run_directed = directed.run
 
 
 def cases(tier, rng):
+    for c in directed.generator_functions_cases():
+        yield "directed-generator-functions", c
     for c in directed.awaitable_kinds_cases():
         yield "directed-awaitable-kinds", c
     thorough = tier == "thorough"
